@@ -68,8 +68,16 @@ fn attr_type(s: &mut Src) -> RType {
 
 fn limits(s: &mut Src, ty: &RType) -> (Option<LimitVal>, Option<LimitVal>) {
     let (tlo, thi) = crate::simple_model::type_range(ty);
-    match s.weighted(&[4, 4, 1, 2, 2, 2, 1]) {
+    match s.weighted(&[4, 4, 1, 2, 2, 2, 1, 2]) {
         0 => (None, None),
+        7 => {
+            // ScaledInteger elements with a scale and offset of their own (another producer's file), ascending
+            let scale = *s.pick(&[1.0, 0.5, 0.001, 2.0, -1.0, 1e-6, 256.0]);
+            let offset = *s.pick(&[0.0, 0.0, 1.5, -100.25]);
+            let (a, b) = (s.range(-1000, 70000), s.range(-1000, 70000));
+            let (lo, hi) = if (scale > 0.0) == (a <= b) { (a, b) } else { (b, a) };
+            (Some(LimitVal::SX { raw: lo, scale: F64(scale), offset: F64(offset) }), Some(LimitVal::SX { raw: hi, scale: F64(scale), offset: F64(offset) }))
+        }
         1 => {
             // complete, same kind, ascending, somewhere around the type range
             let (a, b) = crate::c05::limit_pair(s);
@@ -237,7 +245,17 @@ fn build(case: &Case) -> Scene {
 /// What the reader will see as limits: the writer stores limits only when complete.
 fn effective_limits(case: &Case, a: &Attr, all: &[&Attr]) -> Option<(Option<LimitVal>, Option<LimitVal>)> {
     if case.foreign {
-        return Some(a.limits);
+        // a ScaledInteger element in the units of the attribute it limits (1 and 0 for an attribute that is no scaled
+        // integer) is a raw value of that attribute
+        let units = match &a.ty {
+            RType::Scaled { scale, offset, .. } => (scale.0, offset.0),
+            _ => (1.0, 0.0),
+        };
+        let settle = |l: Option<LimitVal>| match l {
+            Some(LimitVal::SX { raw, scale, offset }) if (scale.0, offset.0) == units => Some(LimitVal::SI(raw)),
+            other => other,
+        };
+        return Some((settle(a.limits.0), settle(a.limits.1)));
     }
     // through the writer API: an override exists if any limit was set; it is written only if all members are given
     let any = all.iter().any(|x| x.limits.0.is_some() || x.limits.1.is_some());
@@ -253,6 +271,9 @@ fn effective_limits(case: &Case, a: &Attr, all: &[&Attr]) -> Option<(Option<Limi
 
 fn check_attr(name: &str, a: &Attr, lim: Option<(Option<LimitVal>, Option<LimitVal>)>, got_on: &[f32], got_off: &[f32], v: &mut Verdict) -> Result<(), String> {
     let spec = range_spec(lim, &a.ty);
+    if matches!(lim, Some((Some(LimitVal::SX { .. }), Some(LimitVal::SX { .. })))) {
+        v.nt("scaled_integer_limits_with_units_of_their_own");
+    }
     let mut prev: Option<f32> = None;
     // ascending in the real value (a negative scale reverses the raw order)
     let mut order: Vec<usize> = (0..a.vals.len()).collect();
